@@ -579,6 +579,13 @@ def c05(ctx):
                         "behaviour classes: recovery from the snapshot of a fat table under back-to-back leader writes; follower state machine stalled (verif hook) for longer than the log RPC timeout, so that proposals time out although they are committed; a table deleted and created again on the leader, once slowly and once while the follower's metadata request is being answered (known finding RecreateNotNoticed); random histories with log and snapshot streams that break after 0-2 messages",
                         "every history contains once-marker transactions (first application creates u<n>, any further one d<n>): a leader command that takes effect twice on the follower stays visible for ever"]
     q = ctx.quick
+    # UNBOUNDED: with the state machine rule of fix 4128a55 every leader command in (base, lidx] took effect exactly once
+    # on the follower and the recorded index never decreases - for any log, any cuts, any number of timeouts, repeated,
+    # late or lost proposals and snapshot recoveries (TLAPS)
+    n, wall = tlaps(ctx.sc, "ReplicationU")
+    ctx.notes["tlaps"] = dict(module="spec/proofs/ReplicationU.tla", obligations_proved=n, wall_s=round(wall, 1),
+                              theorem="Spec => []ExactlyOnce /\\ [][lidx' >= lidx]_vars")
+    log("(D) tlapm ReplicationU: all %d obligations proved in %.1fs" % (n, wall))
     ctx.design("Replication", "MC_Replication_quick.cfg" if q else "MC_Replication_thorough.cfg")
     n, ops = (10, 60) if q else (150, 120)
     ctx.gv("leader-follower-histories", "Trace_Repl", ["repl", "--seed", str(seed()), "--n", str(n), "--ops", str(ops)], racy=True)
